@@ -279,7 +279,11 @@ impl World {
             "cronq": cronq.into_iter().map(|x| x.1).collect::<Vec<_>>(),
         });
         let miners: Vec<Value> = self.miners.iter().map(|m| self.project_miner(m)).collect();
-        json!({"epoch": self.v.epoch(), "power": power, "miners": miners,
+        let mut bals = vec![];
+        for (a, st) in self.v.actor_states() {
+            bals.push(json!([self.name_of(&a), big(&st.balance)]));
+        }
+        json!({"epoch": self.v.epoch(), "power": power, "miners": miners, "bals": bals,
                "rewardBal": big(&self.v.balance(&REWARD_ACTOR_ADDR)),
                "burnt": big(&(self.v.balance(&BURNT_FUNDS_ACTOR_ADDR) - &self.burnt0)),
                "total": big(&self.v.total_fil())})
@@ -336,8 +340,12 @@ impl World {
             let n = call["n"].as_i64().unwrap();
             let mut cron_ok = true;
             let mut fails = vec![];
+            let mut trs: Vec<Value> = vec![];
             for _ in 0..n {
                 let o = self.v.tick();
+                if o.ok() {
+                    trs.extend(self.transfers(&o).as_array().unwrap().iter().cloned());
+                }
                 let f = self.failures(&o);
                 if !o.ok() || !f.as_array().unwrap().is_empty() {
                     cron_ok = false;
@@ -347,6 +355,31 @@ impl World {
             ev["ok"] = json!(true);
             ev["cronOK"] = json!(cron_ok);
             ev["fails"] = json!(fails);
+            ev["tr"] = json!(trs);
+            ev["injected"] = json!(self.v.faults_fired());
+            ev["st"] = self.project();
+            return ev;
+        }
+        if a == "Fault" {
+            // arm a one-shot failure of a tolerated nested send (DESIGN.md Appendix C)
+            let rule = match call["site"].as_str().unwrap() {
+                "reward->miner" => FaultRule { from_type: Some(fil_actors_runtime::runtime::builtins::Type::Reward),
+                    method: Some(MinerMethod::ApplyRewards as u64), times: 1, ..Default::default() },
+                "cron->market" => FaultRule { from_type: Some(fil_actors_runtime::runtime::builtins::Type::Cron),
+                    to_type: Some(fil_actors_runtime::runtime::builtins::Type::Market), times: 1, ..Default::default() },
+                "miner->market" => FaultRule { from_type: Some(fil_actors_runtime::runtime::builtins::Type::Miner),
+                    to_type: Some(fil_actors_runtime::runtime::builtins::Type::Market), times: 1, ..Default::default() },
+                "miner->burn" => FaultRule { from_type: Some(fil_actors_runtime::runtime::builtins::Type::Miner),
+                    to: Some(BURNT_FUNDS_ACTOR_ADDR.id().unwrap()), times: 1, ..Default::default() },
+                other => panic!("unknown fault site {other}"),
+            };
+            self.v.clear_faults();
+            self.v.add_fault(rule);
+            ev["ok"] = json!(true);
+            ev["class"] = json!("ok");
+            ev["code"] = json!(0);
+            ev["tr"] = json!([]);
+            ev["fails"] = json!([]);
             ev["st"] = self.project();
             return ev;
         }
@@ -619,6 +652,9 @@ fn random_call(rng: &mut Rng, w: &World, policy: &Policy) -> Value {
     }
     if (88..89).contains(&k) {
         return json!({"a": "Fund", "m": m, "nano": rng.range(1, 1_000_000)});
+    }
+    if (89..91).contains(&k) {
+        return json!({"a": "Fault", "site": *rng.pick(&["reward->miner", "cron->market", "miner->market", "miner->burn"])});
     }
     // advance time: usually to just before / at / after a deadline boundary
     let next_open = dl_open(pps, cur + 1, wdw);
